@@ -42,8 +42,9 @@ CH = {1: '\n', 2: ' ', 3: '-', 4: '5', 5: 'A', 6: '_', 7: 'a', 8: 'b', 9: '\U000
 CHNAME = {1: 'NL', 2: 'SP', 3: 'HY', 4: '5', 5: 'A', 6: '_', 7: 'a', 8: 'b', 9: 'AS'}
 SIGMA = tuple(range(1, 10))
 MINOR = ("Cc", "Zs", "Pd", "Nd", "Lu", "Pc", "Ll", "Ll", "So")     # must equal Regex!Minor
-TLC_WORKERS = 8
-PROCS = 8
+TLC_WORKERS = 4      # per TLC run; TLC_PAR runs at a time (JVM start-up dominates the small models)
+TLC_PAR = 4
+PROCS = 16
 RE_FLAGS = {'': 0, 's': re.S, 'm': re.M, 'i': re.I, 'x': re.X}
 
 
@@ -243,6 +244,25 @@ def fn_matches(s: str, p: str, flag: str, version: str, ver: str = '1.0'):
     return r
 
 
+def tlc_batch(jobs):
+    """jobs: (key, module, constants, invariants, workdir).  Runs the TLC models TLC_PAR at a time;
+    returns key -> (TLCResult, dot path).  A failed run is a machinery failure."""
+    from concurrent.futures import ThreadPoolExecutor
+
+    def one(job):
+        key, module, consts, invs, wd = job
+        dot = os.path.join(wd, 'g.dot')
+        r = tla.run_tlc(module, tla.cfg_text(consts, spec='Spec', invariants=invs), wd, dump_dot=dot, workers=TLC_WORKERS)
+        return key, r, dot
+    out = {}
+    with ThreadPoolExecutor(max_workers=TLC_PAR) as ex:
+        for key, r, dot in ex.map(one, jobs):
+            tla.require_ok(r, f'{key}')
+            out[key] = (r, dot)
+    return out
+
+
+
 # ------------------------------------------------------------------------------------------
 # failure bookkeeping inside workers: one entry per feature class (first instance + count)
 
@@ -412,15 +432,19 @@ CLASS_CONFIGS = {
 
 
 def run_classes(chk: core.Check, totals: dict) -> None:
+    jobs = []
+    for name, ver, consts, fn_mod, xsd_mod in CLASS_CONFIGS[chk.tier]:
+        for variant in ('fixed', 'pinned'):
+            # fixed: the repaired algorithm must refine the definitional set; pinned: the transcription of the
+            # pinned tree is only dumped (TLC refutes Refines for it, see the note below)
+            jobs.append((f'RegexClass/{name}/{variant}', 'RegexClass', dict(XsdVersion=ver, Flag="", Variant=variant, **consts),
+                         ['Laws', 'Refines'] if variant == 'fixed' else ['Laws'],
+                         os.path.join(chk.scratch, f'class-{name}-{variant}')))
+    done = tlc_batch(jobs)
     for name, ver, consts, fn_mod, xsd_mod in CLASS_CONFIGS[chk.tier]:
         graphs = {}
         for variant in ('fixed', 'pinned'):
-            wd = os.path.join(chk.scratch, f'class-{name}-{variant}')
-            dot = os.path.join(wd, 'g.dot')
-            c = dict(XsdVersion=ver, Flag="", Variant=variant, **consts)
-            invs = ['Laws', 'Refines'] if variant == 'fixed' else ['Laws']
-            r = tla.require_ok(tla.run_tlc('RegexClass', tla.cfg_text(c, spec='Spec', invariants=invs), wd,
-                                           dump_dot=dot, workers=TLC_WORKERS), f'RegexClass/{name}/{variant}')
+            r, dot = done[f'RegexClass/{name}/{variant}']
             if variant == 'fixed':
                 chk.model(f'RegexClass/{name}', r)
             graphs[variant] = tla.load_dot(dot)
@@ -441,6 +465,10 @@ def run_classes(chk: core.Check, totals: dict) -> None:
         chk.add('traces_validated_against_impl', len(states))
         print(f'  RegexClass/{name}: states={len(g.states)} pinned-model-refuted={refuted} '
               f'replay={time.time() - t0:.1f}s', flush=True)
+    n = totals.get('pinned_model_refuted_states', 0)
+    chk.note(f'RegexClass: the as-implemented (positive, negative) model (Variant=pinned) violates Refines in {n} class '
+             f'expressions; the repaired model (Variant=fixed) satisfies it in all' if n else
+             'RegexClass: the Variant=pinned model is not refuted within these bounds')
 
 
 # ------------------------------------------------------------------------------------------
@@ -639,13 +667,11 @@ def subjects_of(consts) -> list:
 
 
 def run_asts(chk: core.Check, totals: dict) -> None:
+    done = tlc_batch([(f'RegexAst/{name}', 'RegexAst', dict(XsdVersion=ver, Flag=flag, **consts),
+                       ['Laws'] + (['SearchLaw'] if search_law else []), os.path.join(chk.scratch, f'ast-{name}'))
+                      for name, flag, ver, consts, fn_mod, search_law in AST_CONFIGS[chk.tier]])
     for name, flag, ver, consts, fn_mod, search_law in AST_CONFIGS[chk.tier]:
-        wd = os.path.join(chk.scratch, f'ast-{name}')
-        dot = os.path.join(wd, 'g.dot')
-        c = dict(XsdVersion=ver, Flag=flag, **consts)
-        invs = ['Laws'] + (['SearchLaw'] if search_law else [])
-        r = tla.require_ok(tla.run_tlc('RegexAst', tla.cfg_text(c, spec='Spec', invariants=invs), wd,
-                                       dump_dot=dot, workers=TLC_WORKERS), f'RegexAst/{name}')
+        r, dot = done[f'RegexAst/{name}']
         chk.model(f'RegexAst/{name}', r)
         g = tla.load_dot(dot)
         os.remove(dot)
@@ -794,12 +820,10 @@ FNS_CONFIGS['thorough'] = FNS_CONFIGS['quick'] + [
 
 
 def run_fns(chk: core.Check, totals: dict) -> None:
+    done = tlc_batch([(f'RegexFns/{name}', 'RegexFns', dict(XsdVersion='1.0', Flag=flag, **consts), ['Laws'],
+                       os.path.join(chk.scratch, f'fns-{name}')) for name, flag, consts in FNS_CONFIGS[chk.tier]])
     for name, flag, consts in FNS_CONFIGS[chk.tier]:
-        wd = os.path.join(chk.scratch, f'fns-{name}')
-        dot = os.path.join(wd, 'g.dot')
-        c = dict(XsdVersion='1.0', Flag=flag, **consts)
-        r = tla.require_ok(tla.run_tlc('RegexFns', tla.cfg_text(c, spec='Spec', invariants=['Laws']), wd,
-                                       dump_dot=dot, workers=TLC_WORKERS), f'RegexFns/{name}')
+        r, dot = done[f'RegexFns/{name}']
         chk.model(f'RegexFns/{name}', r)
         g = tla.load_dot(dot)
         os.remove(dot)
@@ -919,12 +943,15 @@ SYNTAX_CONFIGS = {
 
 
 def run_syntax(chk: core.Check, totals: dict) -> None:
+    nq = 3 if chk.tier == 'quick' else 4
+    jobs = [(f'RegexSyntax/{name}', 'RegexSyntax', dict(Tokens=tokens, First=first, MaxToks=n, Mode=mode, XsdVersion=ver),
+             ['Laws'], os.path.join(chk.scratch, f'syn-{name}'))
+            for name, mode, ver, tokens, first, n, do_fn in SYNTAX_CONFIGS[chk.tier]]
+    jobs.append(('RegexSyntax/q', 'RegexSyntax', dict(Tokens=Q_TOKENS, First=Q_TOKENS, MaxToks=nq, Mode='xp3', XsdVersion='1.0'),
+                 ['Laws'], os.path.join(chk.scratch, 'syn-q')))
+    done = tlc_batch(jobs)
     for name, mode, ver, tokens, first, n, do_fn in SYNTAX_CONFIGS[chk.tier]:
-        wd = os.path.join(chk.scratch, f'syn-{name}')
-        dot = os.path.join(wd, 'g.dot')
-        c = dict(Tokens=tokens, First=first, MaxToks=n, Mode=mode, XsdVersion=ver)
-        r = tla.require_ok(tla.run_tlc('RegexSyntax', tla.cfg_text(c, spec='Spec', invariants=['Laws']), wd,
-                                       dump_dot=dot, workers=TLC_WORKERS), f'RegexSyntax/{name}')
+        r, dot = done[f'RegexSyntax/{name}']
         chk.model(f'RegexSyntax/{name}', r)
         g = tla.load_dot(dot)
         os.remove(dot)
@@ -947,12 +974,8 @@ def run_syntax(chk: core.Check, totals: dict) -> None:
         print(f'  RegexSyntax/{name}: states={len(g.states)} valid={n_valid} unsure={unsure} tlc={r.wall_s:.1f}s '
               f'replay={time.time() - t0:.1f}s', flush=True)
     # flag q: the pattern is a literal; expected = the sub-string relation computed by TLC (qsub)
-    wd = os.path.join(chk.scratch, 'syn-q')
-    dot = os.path.join(wd, 'g.dot')
-    n = 3 if chk.tier == 'quick' else 4
-    c = dict(Tokens=Q_TOKENS, First=Q_TOKENS, MaxToks=n, Mode='xp3', XsdVersion='1.0')
-    r = tla.require_ok(tla.run_tlc('RegexSyntax', tla.cfg_text(c, spec='Spec', invariants=['Laws']), wd,
-                                   dump_dot=dot, workers=TLC_WORKERS), 'RegexSyntax/q')
+    n = nq
+    r, dot = done['RegexSyntax/q']
     chk.model('RegexSyntax/q', r)
     g = tla.load_dot(dot)
     os.remove(dot)
@@ -1065,6 +1088,17 @@ def replay(rec: dict) -> int:
 
 def run(chk: core.Check) -> None:
     core.setup_repo_path()
+    chk.assumptions += [
+        'specification spec/Regex.tla (+ RegexClass, RegexAst, RegexFns, RegexSyntax) is the oracle; Python re on the natively '
+        'supported fragment and unicodedata.category must agree with it on every vector (else exit 2)',
+        'alphabet of 9 representative characters (newline, space, -, 5, A, _, a, b, U+1F600); each escape is the set of '
+        'alphabet members it contains; subjects and patterns bounded as listed in coverage.configs',
+        'match selection (greedy / lazy extents, which alternative) is not specified: membership, leftmost start and the '
+        'partition / tokenize / replace laws only',
+        'flag i: only the pair a/A, no ranges and no escapes inside classes; flag x: patterns without literal blanks; '
+        "XSD 1.1: position of an unescaped '-' in a class not judged (RegexSyntax.unsure)",
+        'invalid patterns: translate_pattern must raise RegexError, fn:matches must raise FORX0002',
+    ]
     totals: dict = {}
     parts = os.environ.get('C12_PARTS', 'class,ast,fns,syntax').split(',')      # development aid only
     if 'class' in parts:
@@ -1075,7 +1109,24 @@ def run(chk: core.Check) -> None:
         run_fns(chk, totals)
     if 'syntax' in parts:
         run_syntax(chk, totals)
-    chk.coverage['details'] = {k: v for k, v in totals.items() if k != 'oracle_examples'}
+    chk.coverage['details'] = {k: (round(v, 1) if isinstance(v, float) else v) for k, v in totals.items() if k != 'oracle_examples'}
+    chk.coverage['configs'] = {
+        'RegexClass': [dict(name=n, xsd_version=v, **{k: (sorted(x) if isinstance(x, set) else x) for k, x in c.items()})
+                       for n, v, c, _, _ in CLASS_CONFIGS[chk.tier]],
+        'RegexAst': [dict(name=n, flag=f, xsd_version=v, **{k: (sorted(x) if isinstance(x, set) else x) for k, x in c.items()})
+                     for n, f, v, c, _, _ in AST_CONFIGS[chk.tier]],
+        'RegexFns': [dict(name=n, flag=f, **{k: (sorted(x) if isinstance(x, set) else x) for k, x in c.items()})
+                     for n, f, c in FNS_CONFIGS[chk.tier]],
+        'RegexSyntax': [dict(name=n, mode=m, xsd_version=v, tokens=sorted(t), first=sorted(fi), max_tokens=k)
+                        for n, m, v, t, fi, k, _ in SYNTAX_CONFIGS[chk.tier]],
+    }
+    chk.coverage['exhaustive'] = True
+    chk.coverage['rule'] = ('every state of the dumped TLC graphs is one case: a class expression with its exact character set; '
+                            'a pattern AST with its membership for every subject of the universe (search and full match); a '
+                            '(pattern, input) pair with its admissible partitions; a token string with its validity. '
+                            'evaluations = single match / API calls on the implementation; non-trivial = class that is neither '
+                            'empty nor universal, pattern with both matching and non-matching subjects, partition with > 1 part, '
+                            'valid token string of > 1 token')
     if totals.get('oracle_disagreements'):
         raise tla.MachineryError(f"specification and second oracle disagree on {totals['oracle_disagreements']} "
                                  f"vectors, e.g. {totals['oracle_examples'][:3]}")
